@@ -426,3 +426,40 @@ func docLit(k gen.Kind) []byte {
 	}
 	return fixedLit(k)
 }
+
+// ZZC01Keys: document keys are compared by value: a key written with escape sequences is the key
+// it decodes to (present / required / unknown accordingly).
+func ZZC01Keys() {
+	optDefault := v.Choose(0, 1) == 1
+	s := newSchema([]byte("{\n  \"a\": 1,\n  \"b/c\": \"x\" // {optional: true}\n}"), optDefault)
+	v.Assert(s.Check() == nil, "C01/generated-schema-rejected-by-Check")
+	spA := []string{`a`, `\u0061`, `A`, `b`}[v.Choose(0, 3)]
+	spB := []string{`b/c`, `b\/c`, `b\u002fc`, `b\u002Fc`, `b\\/c`}[v.Choose(0, 4)]
+	hasA := v.Choose(0, 1) == 1
+	hasB := v.Choose(0, 1) == 1
+	doc := "{"
+	if hasA {
+		doc += `"` + spA + `":5`
+	}
+	if hasB {
+		if hasA {
+			doc += ","
+		}
+		doc += `"` + spB + `":"y"`
+	}
+	doc += "}"
+	v.Observe("doc", doc)
+	aOK := spA == `a` || spA == `\u0061`
+	bOK := spB != `b\\/c`
+	want := (!hasA || aOK) && (!hasB || bOK) && (hasA || optDefault)
+	verr := s.Validate(json.New("d", doc))
+	if want {
+		v.Reach("C01/accepting")
+		v.Assert(verr == nil, "C01/conforming-document-rejected")
+	} else {
+		v.Reach("C01/rejecting")
+		v.Assert(verr != nil, "C01/non-conforming-document-accepted")
+	}
+}
+
+func init() { ZZHarnesses["ZZC01Keys"] = ZZC01Keys }
